@@ -6,6 +6,8 @@ import WhVerif.Model.C13Header
 import WhVerif.Lemmas.C13Header
 import WhVerif.Spec.C13Edit
 import WhVerif.Lemmas.C13Edit
+import WhVerif.Model.C13Text
+import WhVerif.Lemmas.C13Text
 /-!
 # C13 — unphase accepts every VCF, removes all phase information and nothing else
 
@@ -450,5 +452,128 @@ theorem history_unphase_invariant {v w : List Record} (h : History v w) : unphas
 example : ∃ v v' : List Record, v ≠ v' ∧ History v (unphase v') :=
   ⟨[⟨["chr1"], [⟨some ⟨[some 0, some 1], false⟩, []⟩]⟩], [⟨["chr1"], [⟨some ⟨[some 1, some 0], true⟩, [("PS", "5")]⟩]⟩],
     by decide, .step (.edit ((edit_checker_iff _ _).mp (by decide))) (.step (.unphased rfl) (.refl _))⟩
+
+
+/-! ## Round 10: the TEXT of a data line (`Model/C13Text.lean`)
+
+`unphaseLineText` is what `whatshap unphase` (pysam / htslib underneath) does to the text of one data line; `parseLine` reads a
+line into the record the theorems above are about.  Well-formedness: `GtFirstOnly` (GT, if present, is the first FORMAT key). -/
+section Text
+open WhVerif.C13.Text
+
+/-- reading the unphased text = unphasing the record read from the text (`none` on both sides iff a GT token is outside the grammar) -/
+theorem unphase_text_refines_record (l : Str) (hwf : GtFirstOnly (parseT l)) :
+    parseLine (unphaseLineText l) = (parseLine l).map unphaseRecord := by
+  unfold parseLine
+  rw [parseT_unphaseLineText, toRecord_unphaseT _ hwf]
+
+/-- the same against the loop of /repo (`unphaseFix`, with its raising primitives): it does not raise and gives the record of the output text -/
+theorem unphase_text_refines_fix (l : Str) (r : Record) (hwf : GtFirstOnly (parseT l)) (hp : parseLine l = some r) :
+    ∃ r', parseLine (unphaseLineText l) = some r' ∧ unphaseFix [r] = .ok [r'] :=
+  ⟨unphaseRecord r, by rw [unphase_text_refines_record l hwf, hp]; rfl, by rw [total]; rfl⟩
+
+/-- the tokens of the output text: the fixed columns (= the first eight raw columns, or the whole line when there is no FORMAT
+column) are those of the input; FORMAT is the input's minus HP / PQ / PS in the same order; there are as many sample columns; and in
+every sample column the values of the keys other than GT are those of the input (omitted trailing values spelled `.`) minus the
+values of HP / PQ / PS, in the same order -/
+theorem unphase_text_other_columns_identical (l : Str) :
+    (parseT (unphaseLineText l)).fixed = (parseT l).fixed ∧
+    ((parseT l).body = none → unphaseLineText l = l) ∧
+    ∀ keys samples, (parseT l).body = some (keys, samples) →
+      ∃ samples' : List (List Str), (parseT (unphaseLineText l)).body = some (keys.filter (fun k => !isPhaseTagC k), samples') ∧
+        samples'.length = samples.length ∧
+        ∀ (i : Nat) (vs vs' : List Str), samples[i]? = some vs → samples'[i]? = some vs' →
+          ((keys.filter (fun k => !isPhaseTagC k)).zip vs').filter (fun kv => kv.1 ≠ gtKey) =
+            ((keys.zip vs).filter (fun kv => kv.1 ≠ gtKey)).filter (fun kv => !isPhaseTagC kv.1) := by
+  rw [parseT_unphaseLineText]
+  refine ⟨?_, ?_, ?_⟩
+  · unfold unphaseT; split <;> rfl
+  · intro hb
+    have hc := clean_parseT l
+    unfold unphaseLineText unphaseCols
+    have e : unphaseT (parseCols (splitOn '\t' l)) = parseCols (splitOn '\t' l) := by
+      unfold unphaseT; split
+      · rfl
+      · next h => rw [show parseCols (splitOn '\t' l) = parseT l from rfl, hb] at h; simp at h
+    rw [e]
+    have hfix : (parseCols (splitOn '\t' l)).fixed = splitOn '\t' l := by
+      have hb' : (parseCols (splitOn '\t' l)).body = none := hb
+      unfold parseCols at hb' ⊢
+      split
+      · rfl
+      · next h => rw [h] at hb'; simp at hb'
+    unfold renderT
+    rw [show (parseCols (splitOn '\t' l)).body = none from hb]
+    simp only [hfix, join_splitOn]
+  · intro keys samples hb
+    refine ⟨samples.map (unphaseVals keys), by simp [unphaseT, hb, unphaseKeys], by simp, ?_⟩
+    intro i vs vs' hi hi'
+    rw [List.getElem?_map, hi] at hi'
+    simp at hi'
+    subst hi'
+    exact zip_unphaseVals_nonGT keys vs
+
+/-- applying `whatshap unphase` to its own output line changes nothing -/
+theorem unphase_text_idempotent (l : Str) (hwf : GtFirstOnly (parseT l)) :
+    unphaseLineText (unphaseLineText l) = unphaseLineText l := by
+  have h := parseT_unphaseLineText l
+  have : unphaseLineText (unphaseLineText l) = renderT (unphaseT (parseT (unphaseLineText l))) := rfl
+  rw [this, h, unphaseT_idem (clean_parseT l) hwf]
+  rfl
+
+/-- no GT token of the output contains `|` (a token outside the GT grammar, which pysam shows as a string, is the input's) -/
+theorem unphase_text_no_bar (l : Str) (hwf : GtFirstOnly (parseT l)) :
+    ∀ tok ∈ gtTokens (parseT (unphaseLineText l)), '|' ∉ tok ∨ (parseGTTok tok = none ∧ tok ∈ gtTokens (parseT l)) := by
+  rw [parseT_unphaseLineText]
+  intro tok htok
+  obtain ⟨v, hv, rfl⟩ := gtTokens_unphaseT _ hwf tok htok
+  rcases unphaseGTTok_bar v with h | ⟨h1, h2⟩
+  · exact Or.inl h
+  · rw [h2]; exact Or.inr ⟨h1, hv⟩
+
+/-- a line all of whose GT tokens are of the grammar (`parseLine` succeeds) comes out without any `|` in a GT token -/
+theorem unphase_text_no_bar_of_parsed (l : Str) (hwf : GtFirstOnly (parseT l))
+    (hg : ∀ v ∈ gtTokens (parseT l), parseGTTok v ≠ none) :
+    ∀ tok ∈ gtTokens (parseT (unphaseLineText l)), '|' ∉ tok := by
+  rw [parseT_unphaseLineText]
+  intro tok htok
+  obtain ⟨v, hv, rfl⟩ := gtTokens_unphaseT _ hwf tok htok
+  rcases unphaseGTTok_bar v with h | ⟨h1, _⟩
+  · exact h
+  · exact absurd h1 (hg v hv)
+
+/-- values omitted at the end of a sample column (VCF spec) are the same as `.`: writing one more `:.` into a sample column that
+has fewer values than FORMAT has keys does not change the output line (so HP / PQ / PS leave FORMAT whether their values were
+written or omitted, and the output has a value for every remaining key).  No length hypothesis is needed: in a column that already
+has a value for every key the model cuts the surplus value (htslib rejects such a line; outside well-formedness) -/
+theorem trailing_omitted_fields_ok (fixed : List Str) (hf : fixed.length = 8) (fmt : Str) (before after : List Str) (s : Str) :
+    unphaseCols (fixed ++ fmt :: (before ++ (s ++ [':', '.']) :: after)) = unphaseCols (fixed ++ fmt :: (before ++ s :: after)) := by
+  have key : parseCols (fixed ++ fmt :: (before ++ (s ++ [':', '.']) :: after)) = parseCols (fixed ++ fmt :: (before ++ s :: after)) := by
+    unfold parseCols
+    have d1 : ∀ rest : List Str, (fixed ++ rest).drop 8 = rest := fun rest => by rw [← hf]; exact List.drop_left
+    have t1 : ∀ rest : List Str, (fixed ++ rest).take 8 = fixed := fun rest => by rw [← hf]; exact List.take_left
+    rw [d1, d1]
+    simp only [t1, List.map_append, List.map_cons]
+    have : padTo (parseKeys fmt).length (splitOn ':' (s ++ [':', '.'])) = padTo (parseKeys fmt).length (splitOn ':' s) := by
+      rcases splitOn_append_sep_dot ':' s with h | h
+      · rw [h, padTo_append_dot]
+      · exact absurd h (by decide)
+    rw [this]
+  unfold unphaseCols
+  rw [key]
+
+/-! non-vacuity: a line `c 1 . A C . . . GT:PS 1|0:5` satisfies the hypotheses; the output `… GT 0/1` is checked by the driver (`c13.line`) -/
+def exLine : Str := join '\t' [['c'], ['1'], ['.'], ['A'], ['C'], ['.'], ['.'], ['.'], ['G', 'T', ':', 'P', 'S'], ['1', '|', '0', ':', '5']]
+
+example : GtFirstOnly (parseT exLine) := by
+  intro keys samples h
+  have h' : (parseT exLine).body = some ([['G', 'T'], ['P', 'S']], [[['1', '|', '0'], ['5']]]) := by decide
+  rw [h'] at h
+  cases h
+  decide
+example : ∃ r, parseLine exLine = some r := ⟨_, rfl⟩
+example : ∀ v ∈ gtTokens (parseT exLine), parseGTTok v ≠ none := by decide
+
+end Text
 
 end WhVerif.Props.C13
